@@ -723,6 +723,24 @@ func run(c *rt.Ctx) {
 
 // importLeg: `atlas migrate import` of third-party directories must preserve the statement sequence
 // the source reader yields.
+// importKey is the finding key of an import-leg violation: the structural root cause when one applies
+// (`migrate import` reads every format with the generic scanner, like the third-party readers), else
+// the feature key.
+func importKey(cs Case, class string) string {
+	if rc := rootCause(cs); rc != "" {
+		return cs.Dialect + "|" + readerKind(cs.Formatter) + "|" + rc
+	}
+	if cs.Formatter == "liquibase" || cs.Formatter == "atlas" {
+		// liquibase files are read by the dialect's scanner everywhere else; import is not dialect aware
+		t := cs
+		t.Formatter = "golang-migrate"
+		if rc := rootCause(t); rc != "" {
+			return cs.Dialect + "|" + readerKind(cs.Formatter) + "|" + rc
+		}
+	}
+	return key(cs, "import") + "|" + class
+}
+
 func importLeg(c *rt.Ctx) {
 	if c.Atlas == "" {
 		return
@@ -771,7 +789,7 @@ func importLeg(c *rt.Ctx) {
 		cmd.Env = []string{"HOME=" + filepath.Join(root, "home"), "TMPDIR=" + filepath.Join(root, "tmp"), "ATLAS_NO_UPDATE_NOTIFIER=1", "ATLAS_NO_UPGRADE_SUGGESTIONS=1", "PATH=/usr/bin:/bin"}
 		out, err := cmd.CombinedOutput()
 		if err != nil {
-			c.Violation(key(cs, "import")+"|import-failed", "atlas migrate import failed: "+string(out), cs, nil)
+			c.Violation(importKey(cs, "import-failed"), "atlas migrate import failed: "+string(out), cs, nil)
 			return
 		}
 		ld, err := migrate.NewLocalDir(dst)
@@ -779,7 +797,7 @@ func importLeg(c *rt.Ctx) {
 			panic(err)
 		}
 		if err := migrate.Validate(ld); err != nil {
-			c.Violation(key(cs, "import")+"|import-invalid-dir", "imported directory does not validate: "+err.Error(), cs, nil)
+			c.Violation(importKey(cs, "import-invalid-dir"), "imported directory does not validate: "+err.Error(), cs, nil)
 			return
 		}
 		files, _ := ld.Files()
@@ -787,7 +805,7 @@ func importLeg(c *rt.Ctx) {
 		for _, f := range files {
 			ss, err := f.Stmts() // import is not driver aware; neither is this reader
 			if err != nil {
-				c.Violation(key(cs, "import")+"|import-unreadable", "imported file unreadable: "+err.Error(), cs, map[string]any{"file": string(f.Bytes())})
+				c.Violation(importKey(cs, "import-unreadable"), "imported file unreadable: "+err.Error(), cs, map[string]any{"file": string(f.Bytes())})
 				return
 			}
 			for _, s := range ss {
@@ -797,7 +815,7 @@ func importLeg(c *rt.Ctx) {
 		c.Count("import-checked:"+cs.Formatter, 1)
 		c.Eval(rt.Digest("import", cs, got), true)
 		if strings.Join(got, "\x00") != strings.Join(o.got, "\x00") {
-			c.Violation(key(cs, "import")+"|import-sequence", fmt.Sprintf("imported directory yields %q, source reader yields %q", got, o.got), cs, nil)
+			c.Violation(importKey(cs, "import-sequence"), fmt.Sprintf("imported directory yields %q, source reader yields %q", got, o.got), cs, nil)
 		}
 	})
 }
